@@ -112,16 +112,6 @@ pub fn step_market_op<const N: usize, const L: usize>(m: usize, a: usize, cfg: G
         _ => {
             // pure reductions and same-price re-queues (keeps the per-side volume bound trivially)
             assume(nv >= 1 && nv <= entry_order(&pa.e[id]).vol);
-            if cfg.discipline {
-                assume(entry_key_time(&pa.e[id]) != pa.t);
-                let mut j = 0;
-                while j < N {
-                    if j < pa.n && j != id && active(&pa.e[j]) {
-                        assume(entry_key_time(&pa.e[j]) != pa.t);
-                    }
-                    j += 1;
-                }
-            }
             if which == 4 {
                 market.modify_order((a, id), None, Some(nv));
             } else {
